@@ -771,6 +771,7 @@ Definition spec_status_error (m : meth) (r : hresp) : option cerr :=
 
 (** * Observations and verdicts *)
 
+
 Inductive outcome := OOk (v : value) | OErr (e : cerr) | OPanic | OHang.
 (** [o_reqs]: number of HTTP requests the call made *)
 Record obs := mkObs { o_reqs : N; o_out : outcome }.
@@ -834,4 +835,61 @@ Definition spec_ok (m : meth) (path : string) (s : script) (o : obs) : bool :=
   | OOk v =>
     negb (must_fail m path s) &&
     match s with Terr => false | Resp r => value_eqb (spec_value m path r) v end
+  end.
+
+(** * Response.DecodeProp with several values
+
+    No public client method passes more than one value to DecodeProp; its variadic loop
+    (every value is looked up and decoded, the first failure returns) is exercised directly:
+    the harness decodes the body as a MultiStatus and calls
+    resp.DecodeProp(&getETag, &getLastModified) on every response. *)
+Definition decode_pair (r : response) : cres unit :=
+  cdo _ <- decode_prop r n_getetag dec_good;
+  cdo _ <- decode_prop r n_getlastmodified dec_good;
+  COk tt.
+
+Definition decode_pairs (b : xmlbody) : option (list (cres unit)) :=
+  match b with
+  | XSyn => None
+  | XTree t => match dec_multistatus t with Some ms => Some (map decode_pair ms) | None => None end
+  end.
+
+(** specification: both properties are reported with a success status and decode *)
+Definition spec_pair_ok (r : response) : bool :=
+  resp_success r && prop_good r n_getetag dec_good && prop_good r n_getlastmodified dec_good.
+
+Definition pair_eqb (a b : cres unit) : bool :=
+  match a, b with
+  | COk _, COk _ => true
+  | CErr x, CErr y => cerr_eqb x y
+  | CPanic, CPanic => true
+  | _, _ => false
+  end.
+
+Definition list_eqb2 {A B} (eqb : A -> B -> bool) : list A -> list B -> bool :=
+  fix go (a : list A) (b : list B) : bool :=
+    match a, b with
+    | [], [] => true
+    | x :: a', y :: b' => eqb x y && go a' b'
+    | _, _ => false
+    end.
+
+(** observation: None = the body did not decode as a MultiStatus *)
+Definition pairs_agree (b : xmlbody) (o : option (list (cres unit))) : bool :=
+  match decode_pairs b, o with
+  | None, None => true
+  | Some x, Some y => list_eqb pair_eqb x y
+  | _, _ => false
+  end.
+
+Definition pairs_spec_ok (b : xmlbody) (o : option (list (cres unit))) : bool :=
+  match b with
+  | XSyn => match o with None => true | Some _ => false end
+  | XTree t =>
+    match dec_multistatus t, o with
+    | None, None => true
+    | Some ms, Some l =>
+      list_eqb2 (fun r x => match x with CPanic => false | _ => Bool.eqb (c_is_ok x) (spec_pair_ok r) end) ms l
+    | _, _ => false
+    end
   end.
